@@ -62,6 +62,16 @@ impl NodeProcessor for Processor {
             }
         }
 
+        // moving a variable to the end would make it shadow a later variable with the same name
+        let variables = assignment.get_variables();
+        if remove_values_at.iter().any(|&index| {
+            variables[index + 1..]
+                .iter()
+                .any(|variable| variable.get_name() == variables[index].get_name())
+        }) {
+            return;
+        }
+
         let insert_variables: Vec<_> = remove_values_at
             .into_iter()
             .rev()
